@@ -25,7 +25,11 @@ CONSTANTS MaxLines,     \* lines per table
           MaxLocal,     \* bytes per local part
           Mode,         \* "tables": all tables x few databases; "passwd": few tables x all databases
           ULen,         \* account names are shorter than this (32 in the real program)
-          Faults        \* TRUE: the environment may inject read / stat errors
+          Faults,       \* TRUE: the environment may inject read / stat errors
+          WcAsWritten   \* how qmail-newu records the last byte of a wildcard key: FALSE lower-cased (what the
+                        \* lower-cased probe of nughde_get needs), TRUE as written in users/assign (what
+                        \* qmail-newu.c does today: finding "wildcard-last-byte-uppercase"; with TRUE TLC
+                        \* reports SearchIsAssign violated: table <<+a-, +a-A>>, local A-A)
 
 a == 97
 A == 65
@@ -42,7 +46,7 @@ EntryU == <<
   E(1, <<a, BRK>>,    4, 104, HYPHEN, <<>>),        \* +a-     more specific
   E(1, <<>>,          5, 105, HYPHEN, <<>>),        \* +       catch-all
   E(0, <<a, b>>,      6, 0,   <<>>,   <<>>),        \* =ab     uid 0
-  E(1, <<A, BRK, b>>, 7, 107, <<>>,   <<b>>),       \* +A-b    mixed case, overlaps +a-
+  E(1, <<a, BRK, A>>, 7, 107, <<>>,   <<b>>),       \* +a-A    mixed case, overlaps +a-
   E(1, <<a>>,         8, 0,   HYPHEN, <<>>),        \* +a      duplicate wildcard, uid 0
   [w |-> 2, loc |-> <<>>, user |-> <<>>, uid |-> 0, gid |-> 0, home |-> <<>>, dash |-> <<>>, ext |-> <<>>]   \* a line with a problem
 >>
@@ -100,7 +104,9 @@ Key(e) == IF e.w = 1 THEN <<33>> \o LowerS(e.loc) ELSE <<33>> \o LowerS(e.loc) \
 NewuLine ==
   /\ pc = "newu" /\ n <= Len(tab) /\ tab[n].w # 2
   /\ tmp' = Append(tmp, [key |-> Key(tab[n]), e |-> tab[n]])
-  /\ twc' = IF tab[n].w = 1 /\ Len(tab[n].loc) >= 1 THEN twc \cup {Lower(tab[n].loc[Len(tab[n].loc)])} ELSE twc
+  /\ twc' = IF tab[n].w = 1 /\ Len(tab[n].loc) >= 1
+              THEN twc \cup {IF WcAsWritten THEN tab[n].loc[Len(tab[n].loc)] ELSE Lower(tab[n].loc[Len(tab[n].loc)])}
+              ELSE twc
   /\ n' = n + 1
   /\ UNCHANGED <<tab, pw, local, pc, cdb, lower, i, flagwild, ext, nughde, cred, ev, fault, obs>>
 NewuBadLine ==      \* die_format: cdb.tmp is abandoned, users/cdb stays as it was
